@@ -1,5 +1,5 @@
 from typing import Any
-from sympy import Expr, S
+from sympy import Expr, S, sympify
 from sympy.physics.units import Dimension
 
 
@@ -9,7 +9,8 @@ def is_any_dimension(factor: Expr) -> bool:
     absorbing nature.
     """
 
-    return factor in (S.Zero, S.Infinity, S.NegativeInfinity, S.NaN)
+    # NOTE: a floating-point zero is not equal to `S.Zero`, hence the `is_zero` check
+    return sympify(factor).is_zero is True or factor in (S.Infinity, S.NegativeInfinity, S.NaN)
 
 
 def is_number(value: Any) -> bool:
